@@ -113,23 +113,21 @@ func routeActionClusters(r *route.Route) []string {
 }
 
 // edsProbeNames lists the cluster names asked of EDS: every (hostname, port) of the world, without
-// subset and with every DestinationRule subset, whether or not CDS delivered such a cluster (a
-// proxy may ask for any name).
+// subset and with every subset name a DestinationRule of the universe can define, whether or not
+// CDS delivered such a cluster (a proxy may ask for any name). The list does not depend on which
+// rules the world holds, so that sibling worlds are asked the same questions.
+var probeSubsets = []string{"", "m71", "m72"}
+
 func edsProbeNames(w *world) []string {
 	seen := map[string]bool{}
 	var out []string
-	add := func(n string) {
-		if !seen[n] {
-			seen[n] = true
-			out = append(out, n)
-		}
-	}
 	for _, s := range w.Services {
 		for _, p := range s.Ports {
-			add(fmt.Sprintf("outbound|%d||%s", p.Number, s.Host))
-			for _, d := range w.DR {
-				if d.Host == s.Host {
-					add(fmt.Sprintf("outbound|%d|m%d|%s", p.Number, d.Marker, s.Host))
+			for _, sub := range probeSubsets {
+				n := fmt.Sprintf("outbound|%d|%s|%s", p.Number, sub, s.Host)
+				if !seen[n] {
+					seen[n] = true
+					out = append(out, n)
 				}
 			}
 		}
